@@ -323,9 +323,9 @@ V("opt-wrong-var-tightened", "break", ["C03"], BS,
   "tightens variable 0 instead of the objective", "optimize")
 V("minimize-uses-increase", "break", ["C03"], BS,
   "        return self.optimize(variable_idx, decrease_max)", "        return self.optimize(variable_idx, increase_min)", "minimize tightens the lower bound", "minimize")
-V("decmax-no-minus1", "break", ["C03"], SV,
+V("decmax-no-minus1", "break", ["C03", "C04"], SV,
   "MAX] = value - 1 - dom_offsets_arr[var_idx]", "MAX] = value - dom_offsets_arr[var_idx]", "tightening is not strict (same incumbent again: no termination)", "decrease_max")
-V("decmax-offset-sign", "break", ["C03", "C13"], SV,
+V("decmax-offset-sign", "break", ["C03", "C13", "C04"], SV,
   "MAX] = value - 1 - dom_offsets_arr[var_idx]", "MAX] = value - 1 + dom_offsets_arr[var_idx]", "offset added instead of subtracted", "decrease_max")
 V("incmin-stores-max", "break", ["C03"], SV,
   "dom_indices_arr[var_idx], MIN] = value + 1 - dom_offsets_arr[var_idx]", "dom_indices_arr[var_idx], MAX] = value + 1 - dom_offsets_arr[var_idx]",
